@@ -575,15 +575,23 @@ func (h *handler1) newTopicID() (uint16, error) {
 	return topicID, nil
 }
 
+// You must acquire h.registrationMutex before calling this function!
 func (h *handler1) registerTopic(topic string) (uint16, error) {
 	// If already registered, return existing TopicID.
 	if topicID, ok := h.findRegisteredTopicID(topic); ok {
 		return topicID, nil
 	}
-	// New registration.
-	topicID, err := h.newTopicID()
-	if err != nil {
-		return 0, err
+	// The gateway is registering this topic itself right now (REGISTER sent,
+	// REGACK not received yet) => use the same TopicID, one topic must not
+	// get two TopicIDs.
+	topicID, ok := h.pendingRegistrations[topic]
+	if !ok {
+		// New registration.
+		var err error
+		topicID, err = h.newTopicID()
+		if err != nil {
+			return 0, err
+		}
 	}
 	h.registeredTopics.Store(topicID, topic)
 	return topicID, nil
@@ -680,17 +688,30 @@ func (h *handler1) handleSubscribe(ctx context.Context, snSubscribe *snPkts1.Sub
 	var topicID uint16
 	// The TopicID was registered because of this SUBSCRIBE.
 	var newTopicID bool
+	// The TopicID is the one of a registration initiated by the gateway which
+	// the client has not acknowledged yet.
+	var pendingRegistration bool
 	switch snSubscribe.TopicIDType {
 	case snPkts1.TIT_STRING:
 		topic = string(snSubscribe.TopicName)
+		// The lookup and the allocation of a new TopicID must be atomic with
+		// respect to handleBrokerPublish().
+		h.registrationMutex.Lock()
 		if existingID, ok := h.findRegisteredTopicID(topic); ok {
 			// The client knows this TopicID already (one topic must not
 			// have two TopicIDs - the client could not resolve one of them).
 			topicID = existingID
+		} else if pendingID, ok := h.pendingRegistrations[topic]; ok {
+			// The client is being told this TopicID by a REGISTER right now.
+			// It becomes registered when the client accepts that REGISTER or
+			// gets a successful SUBACK, whichever comes first.
+			topicID = pendingID
+			pendingRegistration = true
 		} else if !hasWildcard(topic) {
 			var err error
 			topicID, err = h.newTopicID()
 			if err != nil {
+				h.registrationMutex.Unlock()
 				snSuback := snPkts1.NewSuback(0, snPkts1.RC_INVALID_TOPIC_ID, 0)
 				// We are kind of misusing the "invalid topic ID" return code here.
 				// Please see note in `case *snPkts.Register`.
@@ -706,6 +727,7 @@ func (h *handler1) handleSubscribe(ctx context.Context, snSubscribe *snPkts1.Sub
 			h.registeredTopics.Store(topicID, topic)
 			newTopicID = true
 		}
+		h.registrationMutex.Unlock()
 		// topicID remains zero if client is subscribing to a wildcard topic.
 	case snPkts1.TIT_PREDEFINED:
 		var ok bool
@@ -724,6 +746,9 @@ func (h *handler1) handleSubscribe(ctx context.Context, snSubscribe *snPkts1.Sub
 
 	msgID := snSubscribe.MessageID()
 	transaction := newSubscribeTransaction(ctx, h, msgID, topicID, newTopicID)
+	if pendingRegistration {
+		transaction.pendingTopic = topic
+	}
 	h.transactions.Store(msgID, transaction)
 
 	mqSubscribe := mqPkts.NewControlPacket(mqPkts.Subscribe).(*mqPkts.SubscribePacket)
